@@ -245,6 +245,18 @@ func NumEqual(a, b Num, tolBig bool) bool {
 		return diff.Cmp(bound) <= 0
 	}
 	if a.Class != b.Class {
+		// A binary float whose value is an integer may come back as that integer (CTE prints 1.0 as
+		// 0x1, which the grammar reads as an integer): same value, so equivalent. Fractions stay
+		// bit-exact binary floats.
+		bin, dec := a, b
+		if bin.Class == NDec {
+			bin, dec = b, a
+		}
+		if bin.Class == NBin && dec.Class == NDec && dec.Exp >= 0 && dec.Exp < 400 {
+			rb, _ := bin.rat()
+			rd, _ := dec.rat()
+			return rb.Cmp(rd) == 0
+		}
 		return false
 	}
 	switch a.Class {
@@ -544,6 +556,9 @@ func Strip(n *Node, o Opts) *Node {
 type EqOpts struct {
 	TolBigFloat bool // allow the documented decimal rounding of non-float64 big floats (CBE leg)
 	NanKindOnly bool // always true by the property text; kept for clarity
+	// FloatArrayNaNKind compares float-array elements one by one and keeps only the quiet/signalling
+	// kind of NaN elements (text formats cannot carry NaN payloads).
+	FloatArrayNaNKind bool
 }
 
 func timeEq(a, b compact_time.Time) bool {
@@ -611,7 +626,7 @@ func diff(a, b *Node, o EqOpts, path string) string {
 			return fmt.Sprintf("%s: time %v vs %v", path, (&ev.Event{K: ev.Time, T: a.Time}).String(), (&ev.Event{K: ev.Time, T: b.Time}).String())
 		}
 	case KArray:
-		if a.AT != b.AT || a.Count != b.Count || !bytes.Equal(a.Bytes, b.Bytes) {
+		if a.AT != b.AT || a.Count != b.Count || !arrayBytesEq(a.AT, a.Bytes, b.Bytes, o) {
 			return fmt.Sprintf("%s: array %s vs %s", path, a.Brief(), b.Brief())
 		}
 	case KMedia:
@@ -714,3 +729,53 @@ func Walk(n *Node, f func(*Node)) {
 func SortKey(n *Node) string { return n.brief(6) }
 
 var _ = sort.Strings
+
+func arrayBytesEq(at events.ArrayType, a, b []byte, o EqOpts) bool {
+	if bytes.Equal(a, b) {
+		return true
+	}
+	if !o.FloatArrayNaNKind || len(a) != len(b) {
+		return false
+	}
+	var w int
+	switch at {
+	case events.ArrayTypeFloat16:
+		w = 2
+	case events.ArrayTypeFloat32:
+		w = 4
+	case events.ArrayTypeFloat64:
+		w = 8
+	default:
+		return false
+	}
+	for i := 0; i+w <= len(a); i += w {
+		x, y := a[i:i+w], b[i:i+w]
+		if bytes.Equal(x, y) {
+			continue
+		}
+		var nanX, nanY, quietX, quietY bool
+		switch w {
+		case 2: // bfloat16: sign(1) exp(8) mantissa(7)
+			ux, uy := uint16(x[0])|uint16(x[1])<<8, uint16(y[0])|uint16(y[1])<<8
+			nanX, quietX = ux&0x7f80 == 0x7f80 && ux&0x7f != 0, ux&0x40 != 0
+			nanY, quietY = uy&0x7f80 == 0x7f80 && uy&0x7f != 0, uy&0x40 != 0
+		case 4:
+			ux := uint32(x[0]) | uint32(x[1])<<8 | uint32(x[2])<<16 | uint32(x[3])<<24
+			uy := uint32(y[0]) | uint32(y[1])<<8 | uint32(y[2])<<16 | uint32(y[3])<<24
+			nanX, quietX = ux&0x7f800000 == 0x7f800000 && ux&0x7fffff != 0, ux&0x400000 != 0
+			nanY, quietY = uy&0x7f800000 == 0x7f800000 && uy&0x7fffff != 0, uy&0x400000 != 0
+		case 8:
+			var ux, uy uint64
+			for k := 7; k >= 0; k-- {
+				ux = ux<<8 | uint64(x[k])
+				uy = uy<<8 | uint64(y[k])
+			}
+			nanX, quietX = ux&0x7ff0000000000000 == 0x7ff0000000000000 && ux&0xfffffffffffff != 0, ux&(1<<51) != 0
+			nanY, quietY = uy&0x7ff0000000000000 == 0x7ff0000000000000 && uy&0xfffffffffffff != 0, uy&(1<<51) != 0
+		}
+		if !(nanX && nanY && quietX == quietY) {
+			return false
+		}
+	}
+	return true
+}
